@@ -73,6 +73,9 @@ KANI_HARNESSES = {
     "k_ffi_null_args": H("maybenot-ffi", "ffi::verif_proofs", "k_ffi_null_args",
                          "maybenot_on_events / maybenot_num_machines / maybenot_start (null arguments)", FFI2,
                          default_tag="C20.safety"),
+    "k_ffi_on_events_empty": H("maybenot-ffi", "verif_proofs", "k_ffi_on_events_empty", "maybenot_on_events (ffi.rs)", FFI,
+                               bounded="an instance without machines (generator never used, all-zero value), batches of 0 or 1 event, Instant::now stubbed",
+                               default_tag="C20.safety"),
 }
 # not decidable with Kani 0.68 and therefore not claimed: geometric (constructor loop over the symbolic
 # probability exceeds any small unwinding bound), gamma and beta (constructors reach inline asm)
@@ -129,8 +132,8 @@ PROPS = {
     "C13": {"verus": [], "kani": ["k_dist_sample", "k_clamp_timeout", "k_clamp_duration", "k_clamp_limit",
                                   "k_counter_value"] + VALID_DIST, "title": "Sampling in range",
             "explanation": "Dist::sample with the underlying rand_distr sampler over-approximated by 'returns any f64': the result is not NaN, >= 0, <= max when max > 0, and finite, for all 11 families and all start/max including NaN and infinities; the consumers' conversions never panic and clamp to one day. NOT decided: that the rand_distr samplers return promptly (probabilistic termination) - an explicit assumption."},
-    "C20": {"verus": [], "kani": ["k_ffi_convert_action", "k_ffi_convert_event", "k_ffi_null_args"], "title": "C API",
-            "explanation": "convert_action is field-exact for every TriggerAction value (kind, machine, flags, timer, seconds, nanoseconds) and convert_event for all 10 event types and any id (loop-free, full domain); null `this`, null `out` are reported through NullPointer / 0 without dereference. The zip with the output slice (count <= num_machines) and start/stop ownership are std semantics, assumed."},
+    "C20": {"verus": [], "kani": ["k_ffi_convert_action", "k_ffi_convert_event", "k_ffi_null_args", "k_ffi_on_events_empty"], "title": "C API",
+            "explanation": "convert_action is field-exact for every TriggerAction value (kind, machine, flags, timer, seconds, nanoseconds) and convert_event for all 10 event types and any id (loop-free, full domain); null `this`, null `out` are reported through NullPointer / 0 without dereference; on a real machine-less instance (BOUNDED: 0 machines, batches of 0 or 1 event) maybenot_on_events reports a null event / action / count pointer, returns Ok otherwise and writes the count 0 <= maybenot_num_machines. The zip with the output slice for instances with machines and start/stop ownership are std semantics, assumed."},
 }
 for p in PROPS.values():
     p.setdefault("trusted", TB_COMMON)
